@@ -24,6 +24,14 @@ CHECKS = {
   "Generated legal histories interleaved with argument probes drawn from integer limits and values around purged/last for every public operation incl. update_state; every call and the observers that follow run under catch_unwind in a build with overflow checks and debug assertions on.",
   "Only panics are judged after an unmodelled probe. Known class index-near-u64max (known_findings.json) is reported as KNOWN-FINDING and ends the affected case.",
   "property-based testing (proptest): boundary-value argument fuzzing over reachable states, panic oracle", "DESIGN.md §4 C16"),
+ "C07": ("exploration",
+  "Generated histories x cache limits incl. 0 x generated worker schedules: the flush worker is gated at every write/fdatasync/unlink/callback, reads (range, full, snapshot iteration, concurrent reader threads) are checked against the model after every op and every single worker step, across restarts; traced preads must lie inside written bytes.",
+  "Worker schedules at file-system-call granularity, caller at operation granularity; finer races only stressed. Known class (re-append at or below an earlier id, known_findings.json) excluded by construction in the main search and probed separately.",
+  "property-based testing (proptest): stateful model-based over generated schedules (gated worker via libc interposition)", "DESIGN.md §4 C07"),
+ "C15": ("exploration",
+  "Generated histories x small cache limits x generated worker schedules; after every op and every worker step stat() is compared with the resident set from the guarded accessor; over-limit states after appends must hold only entries above the boundary; after idle + drain nothing at or below the boundary is resident.",
+  "Resident set via verif-hooks accessor; over-limit clause judged after appends (the writes that insert and trigger eviction), see DESIGN.md.",
+  "property-based testing (proptest): stateful invariant checking over generated schedules", "DESIGN.md §4 C15"),
 }
 
 ALL = [f"C{i:02d}" for i in range(1, 17)]
